@@ -339,6 +339,40 @@ def check_dc(case):
             'key': [case['db'], n, cols, case['cells'], list(excl) if excl else None]}
 
 
+def instances(tier):
+    """A user's own additions to an opened database are that object's: whoever opens the shipped file afterwards (in the
+    same process) gets the shipped entries - no foreign label, nothing for a table that is not shipped."""
+    core = cirbo_core()
+    from cirbo.circuits_db.data_utils import DEFAULT_AIG_DB_PATH, DEFAULT_XAIG_DB_PATH
+    from cirbo.circuits_db.db import CircuitsDatabase
+
+    done = 0
+    for which, path in (('aig', DEFAULT_AIG_DB_PATH), ('xaig', DEFAULT_XAIG_DB_PATH)):
+        first = CircuitsDatabase(path)
+        first.open()
+        par = core.Circuit.bare_circuit(4)
+        par.emplace_gate('p', core.gate.XOR, ('0', '1'))
+        par.emplace_gate('q', core.gate.XOR, ('2', '3'))
+        par.emplace_gate('r', core.gate.XOR, ('p', 'q'))
+        par.set_outputs(['r'])
+        first.add_circuit(par, label='scratch_of_the_first_user')
+        first.add_circuit(par)
+        first.close()
+        second = CircuitsDatabase(path)
+        second.open()
+        try:
+            if second.get_by_label('scratch_of_the_first_user') is not None:
+                raise Violation('instances:foreign_label', f'{which}: a label added to another database object is found in a newly opened one')
+            tt = [[bool(bin(j).count('1') % 2) for j in range(16)]]
+            if second.get_by_raw_truth_table(tt) is not None:
+                raise Violation('instances:foreign_entry', f'{which}: the 4-input parity (not shipped) is found after another object stored it')
+        finally:
+            second.close()
+        done += 2
+    return {'evaluations': done, 'distinct_nontrivial': done, 'exhaustive': True,
+            'samples': ['open, add_circuit, close, open again: foreign label, foreign table']}
+
+
 SPEC = {
     'id': 'C17',
     'rule': ('Entries (sharded finite sweep): thorough = ALL 2 x 349,724 stored keys, quick = all 1- and 2-output keys + a seeded '
@@ -353,6 +387,7 @@ SPEC = {
     'assumptions': ['the set of stored labels is read from the opened database dictionary (no public iterator exists)'],
     'subs': [Sub('lookup', lookup_cases, check_lookup_case, {'quick': 1600, 'thorough': 150000}),
              Sub('dont_care_lookup', dc_cases, check_dc, {'quick': 320, 'thorough': 30000})],
+    'exhaustive': {'instances': instances},
     'sharded': {'entries': entries_sweep, 'lookups': lookups_sweep},
     'replay': {'entries': replay_entry, 'lookups': replay_lookup},
     'required_classes': {'lookup': ['needs_negation', 'duplicate_outputs', 'complementary_outputs', 'needs_reordering',
